@@ -136,6 +136,89 @@ PLANS = {
 }
 
 
+EXTDIFF = {"extdiff.sh": "#!/bin/sh\necho EXTERNAL-DIFF-GARBAGE\nexit 0\n"}
+GITCFG_TWINS = [
+    {"gitconfig": {"diff.noprefix": "true", "color.ui": "always", "core.quotePath": "true"}},
+    {"gitconfig": {"diff.mnemonicPrefix": "true", "diff.algorithm": "patience", "color.grep": "always",
+                   "grep.lineNumber": "true", "grep.column": "true"}, "cwd": "sub"},
+    {"gitconfig": {"diff.external": "@DIR@/extdiff.sh", "diff.renames": "copies", "blame.showEmail": "true"},
+     "scripts": EXTDIFF, "cwd": "dashC"},
+    {"gitconfig": {"diff.upper.textconv": "tr a-z A-Z <", "notes.displayRef": "refs/notes/ai",
+                   "core.quotePath": "false", "color.diff": "always", "color.status": "always"},
+     "attributes": "* diff=upper\n"},
+    {"gitconfig": {"diff.algorithm": "histogram", "diff.context": "0", "diff.interHunkContext": "5",
+                   "diff.indentHeuristic": "false", "color.blame.repeatedLines": "red", "blame.coloring": "repeatedLines",
+                   "color.ui": "always"}, "env": {"GIT_EXTERNAL_DIFF": "/bin/false"}, "cwd": "sub"},
+    {"gitconfig": {"diff.noprefix": "true", "diff.renames": "false", "diff.wsErrorHighlight": "all",
+                   "core.pager": "cat", "pager.diff": "true", "pager.blame": "true", "log.showSignature": "false",
+                   "diff.colorMoved": "zebra", "diff.submodule": "log", "status.short": "true",
+                   "status.branch": "true", "blame.date": "relative", "blame.showRoot": "true",
+                   "blame.blankBoundary": "true"}},
+]
+NOFAST = [{"env": {"GIT_AI_VERIF_NO_FASTPATH": "1"}}]
+HOOKSMODE = [{"mode": "hooks"}]
+TWIN = ["Twin_Obs", "Twin_Exact", "Twin_Blame"]
+
+TWIN_EQ = ["Twin_Obs", "Twin_Equiv", "Twin_Blame"]
+
+PLANS["C12"] = {
+    "clauses": TWIN_EQ,
+    "quick": [
+        dict(name="commit", consts=consts(files=("f", "g"), alphabet=PARTIAL, steps=5, commits=3, uid=4, lines=3),
+             invariants=[], budget=120, variants=[("plain", "unicode"), ("plain", "spaces"), ("crlf", "subdir")],
+             twins=GITCFG_TWINS),
+        dict(name="rewrite", consts=consts(alphabet=REWRITE + ("amend",), steps=9, commits=7, uid=5, lines=5,
+                                           sessions=("S1",)), invariants=[], budget=150,
+             variants=[("plain", "unicode"), ("plain", "subdir")], twins=GITCFG_TWINS, per_tag=1),
+    ],
+    "thorough": [
+        dict(name="commit", consts=consts(files=("f", "g"), alphabet=PARTIAL, steps=6, commits=3, uid=5, lines=3),
+             invariants=[], budget=300, variants=[("plain", "unicode"), ("plain", "spaces"), ("crlf", "subdir")],
+             twins=GITCFG_TWINS, all_twins=True, timeout=2400),
+        dict(name="rewrite", consts=consts(alphabet=REWRITE + ("amend", "reset_keep", "stash"), steps=9, commits=7,
+                                           uid=5, lines=5, sessions=("S1",)), invariants=[], budget=400,
+             variants=[("plain", "unicode"), ("plain", "subdir")], twins=GITCFG_TWINS, all_twins=True, per_tag=1,
+             timeout=2400),
+    ],
+}
+PLANS["C13"] = {
+    "clauses": TWIN_EQ,
+    "quick": [
+        dict(name="commit", consts=consts(alphabet=PARTIAL, steps=5, commits=3, lines=3), invariants=[], budget=120,
+             variants=RENDERS[:3], twins=HOOKSMODE),
+        dict(name="rewrite", consts=consts(alphabet=REWRITE + ("amend",), steps=9, commits=7, uid=5, lines=5,
+                                           sessions=("S1",)), invariants=[], budget=160, variants=RENDERS[:2],
+             twins=HOOKSMODE, per_tag=1),
+        dict(name="destructive", consts=consts(alphabet=DESTRUCTIVE, steps=6, commits=3, lines=3), invariants=[],
+             budget=120, variants=RENDERS[:2], twins=HOOKSMODE),
+    ],
+    "thorough": [
+        dict(name="commit", consts=consts(alphabet=PARTIAL, steps=6, commits=3, lines=4), invariants=[], budget=800,
+             variants=RENDERS, twins=HOOKSMODE, timeout=2400),
+        dict(name="rewrite", consts=consts(alphabet=REWRITE + ("amend", "edit_del"), steps=10, commits=7, uid=6,
+                                           lines=5, sessions=("S1",)), invariants=[], budget=1200, variants=RENDERS,
+             twins=HOOKSMODE, per_tag=1, timeout=3000, workers=12),
+        dict(name="destructive", consts=consts(alphabet=DESTRUCTIVE, steps=7, commits=3, lines=3), invariants=[],
+             budget=800, variants=RENDERS, twins=HOOKSMODE, timeout=2400),
+    ],
+}
+PLANS["C15"] = {
+    "clauses": TWIN,
+    "quick": [
+        dict(name="rewrite", consts=consts(alphabet=REWRITE, steps=10, commits=7, uid=5, lines=5, sessions=("S1",)),
+             invariants=[], budget=300, variants=RENDERS[:3], twins=NOFAST, per_tag=1),
+    ],
+    "thorough": [
+        dict(name="rewrite", consts=consts(alphabet=REWRITE + ("edit_del",), steps=10, commits=7, uid=6, lines=5,
+                                           sessions=("S1",)), invariants=[], budget=2000, variants=RENDERS,
+             twins=NOFAST, per_tag=2, timeout=3000, workers=12),
+        dict(name="rewrite2f", consts=consts(files=("f", "g"), alphabet=REWRITE, steps=10, commits=7, uid=5, lines=4,
+                                             sessions=("S1", "S2")), invariants=[], budget=1200, variants=RENDERS,
+             twins=NOFAST, per_tag=1, timeout=3000, workers=12),
+    ],
+}
+
+
 def _core(pid, tier, seed):
     return core_check.run_core(pid, tier, seed, PLANS[pid])
 
